@@ -57,7 +57,7 @@ def main():
             sys.exit(0 if pr['ok'] else 1)
         obs = safe_run(mod, case)
         fail = mod.oracle(case, obs)
-        core.coq_build()
+        core.coq_build(' '.join(getattr(mod, 'COQ_TARGETS', ['models'])))
         bad, nbad, errs = core.run_shards(pid, mod.coq_preamble(), mod.CTYPE, mod.CHECKER,
                                           [mod.coq_term(case, obs)])
         core.log('case: %s' % json.dumps(case, default=repr)[:2000])
@@ -75,7 +75,6 @@ def main():
     # ---- 1. proof stage ------------------------------------------------------------------------
     if a.no_proof:
         pr = {'ok': True, 'obligations': 0, 'discharged': 0, 'theorems': [], 'axioms': [], 'errors': []}
-        core.coq_build()
     else:
         pr = core.proof_stage(pid, thorough=(tier == 'thorough'))
     core.log('[%s] proof stage: %d/%d theorems, axioms=%s %s' % (
